@@ -387,6 +387,7 @@ type LoopSpec struct {
 	Bounded    int
 	Modifies   []*Clause
 	After      []*Clause
+	Stable     []*Clause // proved on entry, ASSUMED to survive the loop (ownership arguments the verifier cannot make)
 }
 
 type ParamDecl struct {
@@ -635,8 +636,9 @@ func ParseContractFile(path string, pkg string) (*ContractFile, error) {
 		case "callsite":
 			// callsite <callee> requires <expr>
 			callee, r2 := firstWord(rest)
-			if strings.HasPrefix(callee, "(") && !strings.Contains(callee, ")") {
-				// method names contain no spaces, nothing to do
+			if callee == "iface" || callee == "functype" {
+				w2, r3 := firstWord(r2)
+				callee, r2 = callee+" "+w2, r3
 			}
 			kw, r3 := firstWord(r2)
 			if kw != "requires" {
@@ -729,6 +731,12 @@ func ParseContractFile(path string, pkg string) (*ContractFile, error) {
 					}
 					ls.Modifies = append(ls.Modifies, c)
 				}
+			case "assume-stable":
+				c, err := mkClause("stable", r3, l.line)
+				if err != nil {
+					return nil, err
+				}
+				ls.Stable = append(ls.Stable, c)
 			case "after":
 				c, err := mkClause("after", r3, l.line)
 				if err != nil {
